@@ -55,7 +55,7 @@ fn plants(rng: &mut Rng, per_cell: usize) -> Vec<Plant> {
     let mut v = vec![];
     // type-level leaves at every position and depth, with and without skip
     for (cname, leaf) in LEAVES {
-        for position in ["struct-field", "struct-variant-field", "newtype-payload", "generic-argument", "alias-target", "serialized-as-field", "serialized-as-item"] {
+        for position in ["struct-field", "struct-variant-field", "newtype-payload", "generic-argument", "alias-target", "serialized-as-field", "serialized-as-item", "serialized-as-tuple-struct-field", "serialized-as-variant-payload", "serialized-as-struct-variant-field"] {
             for depth in 0..=5usize {
                 for skip in 0..3u8 {
                     for _ in 0..per_cell {
@@ -67,6 +67,9 @@ fn plants(rng: &mut Rng, per_cell: usize) -> Vec<Plant> {
                             "newtype-payload" => (format!("#[typeshare]\n#[serde(tag = \"t\", content = \"c\")]\npub enum Victim {{\n    A(u8),\n    {sk}    B({ty}),\n}}\n"), true),
                             "generic-argument" => (format!("#[typeshare]\npub struct Victim {{\n    pub ok: u8,\n    {sk}    pub bad: Wrapper<{ty}>,\n}}\n"), true),
                             "alias-target" => (format!("#[typeshare]\npub type Victim = {ty};\n"), false),
+                            "serialized-as-tuple-struct-field" => (format!("#[typeshare]\npub struct Victim(#[typeshare(serialized_as = \"{ty}\")] pub Color);\n"), false),
+                            "serialized-as-variant-payload" => (format!("#[typeshare]\n#[serde(tag = \"t\", content = \"c\")]\npub enum Victim {{\n    A(u8),\n    {sk}    B(#[typeshare(serialized_as = \"{ty}\")] Color),\n}}\n"), true),
+                            "serialized-as-struct-variant-field" => (format!("#[typeshare]\n#[serde(tag = \"t\", content = \"c\")]\npub enum Victim {{\n    A,\n    B {{\n        ok: u8,\n        {sk}        #[typeshare(serialized_as = \"{ty}\")]\n        bad: Color,\n    }},\n}}\n"), true),
                             "serialized-as-field" => (format!("#[typeshare]\npub struct Victim {{\n    pub ok: u8,\n    {sk}    #[typeshare(serialized_as = \"{ty}\")]\n    pub bad: Color,\n}}\n"), true),
                             _ => (format!("#[typeshare(serialized_as = \"{ty}\")]\npub struct Victim {{ pub ok: u8 }}\n"), false),
                         };
@@ -311,7 +314,7 @@ pub fn run(ctx: &Ctx) -> (Spec, Report) {
     let _ = std::fs::remove_dir_all(&scratch);
     let spec = Spec {
         level: "fault_enumeration",
-        rule: format!("a supported background program plus exactly one planted unsupported construct: {{u64, i64, usize, isize, tuple type}} x 7 positions (struct field, struct-variant field, newtype payload, generic argument, alias target, serialized_as on field / item) x wrapper chains of depth 0-5 (Vec, Option, HashMap key/value, Box, array, slice, reference, user generic) x {{no skip, serde(skip), typeshare(skip)}}, plus tuple structs / variants, serde(flatten) in 3 spellings and 2 positions, data enums without tag/content, tag/content on unit enums and 9 non-integer-literal consts: {} plants x 6 languages through the library (must be rejected with an error naming the file; skipped twins must succeed), and {n_cli} cells through the real binary under strace with and without a pre-existing output, single- and multi-file, alone or with valid sibling files of the same crate, the offending item next to accepted items or as the only annotated item of its file, and bystander crates, delivered to the collector in arrival, reversed or seeded order (no create/truncate/write/rename/unlink/mkdir event on the output location, bytes/mtime/inode unchanged); distinct = (construct, position, depth, skip, outcome)", all.len()),
+        rule: format!("a supported background program plus exactly one planted unsupported construct: {{u64, i64, usize, isize, tuple type}} x 10 positions (struct field, struct-variant field, newtype payload, generic argument, alias target, serialized_as on a struct field / item / tuple-struct field / variant payload / struct-variant field) x wrapper chains of depth 0-5 (Vec, Option, HashMap key/value, Box, array, slice, reference, user generic) x {{no skip, serde(skip), typeshare(skip)}}, plus tuple structs / variants, serde(flatten) in 3 spellings and 2 positions, data enums without tag/content, tag/content on unit enums and 9 non-integer-literal consts: {} plants x 6 languages through the library (must be rejected with an error naming the file; skipped twins must succeed), and {n_cli} cells through the real binary under strace with and without a pre-existing output, single- and multi-file, alone or with valid sibling files of the same crate, the offending item next to accepted items or as the only annotated item of its file, and bystander crates, delivered to the collector in arrival, reversed or seeded order (no create/truncate/write/rename/unlink/mkdir event on the output location, bytes/mtime/inode unchanged); distinct = (construct, position, depth, skip, outcome)", all.len()),
         assumptions: vec![
             "consts are planted only for backends with const support (TypeScript, Go, Python)".into(),
             "a run that panics or hangs is C07's finding and counted as inconclusive here".into(),
